@@ -32,6 +32,9 @@ def run(model, rep, tier):
     # raise there on its own data (shared with C04.R15)
     from . import c04 as _c04
     _c04.r15_integer_format_of_float(ctx, rep, 'C01.R9')
+    from . import robust
+    robust.layers_not_truth_tested(ctx, rep, 'C01.R10')
+    robust.asserts_have_no_effects(ctx, rep, 'C01.R20', 'C01')
     rep.units['cfg'] = ctx.cfg_stats
 
 
